@@ -3,6 +3,7 @@ package c05
 
 import (
 	"fmt"
+	"math"
 	"net/http"
 	"net/http/httptest"
 	"runtime"
@@ -33,6 +34,13 @@ func genDur(t *rapid.T, label string, lo, hi int) time.Duration {
 	return rapid.SampledFrom(g).Draw(t, label)
 }
 
+func minI(a, b int64) int64 {
+	if a < b {
+		return a
+	}
+	return b
+}
+
 func ms(d time.Duration) int64 {
 	m := int64(d / time.Millisecond)
 	if m < 1 {
@@ -44,6 +52,9 @@ func ms(d time.Duration) int64 {
 func TestC05_Shield(t *testing.T) {
 	rapid.Check(t, func(t *rapid.T) {
 		F := genDur(t, "fallback", 2, 9)
+		if rapid.IntRange(0, 9).Draw(t, "forever") == 0 { // the "never recover" idiom
+			F = rapid.SampledFrom([]time.Duration{math.MaxInt64, 290 * 365 * 24 * time.Hour, 100 * 365 * 24 * time.Hour}).Draw(t, "foreverDur")
+		}
 		R := genDur(t, "recovery", 2, 9)
 		P := genDur(t, "checkPeriod", 0, 6)
 		expr := rapid.SampledFrom([]string{
@@ -80,6 +91,9 @@ func TestC05_Shield(t *testing.T) {
 			}
 			if st == "tripped" {
 				shieldFrom, shieldUntil = d.Now, d.Now+F
+				if shieldUntil < shieldFrom { // beyond what a Duration can express: forever
+					shieldUntil = math.MaxInt64
+				}
 				trips++
 				if len(d.InFlight) > 0 {
 					inflightAcrossTrip = true
@@ -132,14 +146,14 @@ func TestC05_Shield(t *testing.T) {
 					start()
 				}
 				if rapid.Bool().Draw(t, "latency") {
-					d.Advance(cbh.Step(rapid.Int64Range(1, 2*ms(P)+ms(F)).Draw(t, "lat")))
+					d.Advance(cbh.Step(rapid.Int64Range(1, 2*ms(P)+minI(ms(F), 100000)).Draw(t, "lat")))
 					observe("advance")
 				}
 				for len(d.InFlight) > leave {
 					finish(len(d.InFlight)-1, 502)
 				}
 			case 5: // jump close to / just past the end of the shield
-				if shieldUntil > d.Now {
+				if shieldUntil > d.Now && F < 24*time.Hour {
 					rem := ms(shieldUntil - d.Now)
 					delta := rapid.SampledFrom([]int64{-1, 0, 1, 2}).Draw(t, "edge")
 					if rem+delta >= 1 {
@@ -157,13 +171,16 @@ func TestC05_Shield(t *testing.T) {
 				case 2:
 					step = 2*ms(P) + 1
 				case 3:
-					step = ms(F) / 3
+					step = minI(ms(F), 300000) / 3
 				case 4:
 					step = ms(F) - 1
+					if F > 24*time.Hour {
+						step = 3600_000
+					}
 				case 5:
 					step = ms(R)/4 + 1
 				default:
-					step = rapid.Int64Range(1, ms(F)+ms(R)).Draw(t, "advAny")
+					step = rapid.Int64Range(1, minI(ms(F), 100000)+ms(R)).Draw(t, "advAny")
 				}
 				if step < 1 {
 					step = 1
@@ -196,10 +213,11 @@ func TestC05_Shield(t *testing.T) {
 // ---- real-goroutine stress ----------------------------------------------------
 
 type hookLogger struct {
-	seq   *atomic.Int64
-	mu    sync.Mutex
-	trips []tripRec
-	rnd   atomic.Uint64
+	seq    *atomic.Int64
+	mu     sync.Mutex
+	trips  []tripRec
+	states []string // every state the breaker set, in the order it set them (logged inside its lock)
+	rnd    atomic.Uint64
 }
 
 type tripRec struct {
@@ -219,12 +237,13 @@ func (l *hookLogger) perturb() {
 
 func (l *hookLogger) Debug(format string, args ...interface{}) {
 	if strings.Contains(format, "setting state to") && len(args) >= 3 {
-		if st, ok := args[1].(fmt.Stringer); ok && st.String() == "tripped" {
-			if until, ok := args[2].(time.Time); ok {
-				l.mu.Lock()
+		if st, ok := args[1].(fmt.Stringer); ok {
+			l.mu.Lock()
+			l.states = append(l.states, st.String())
+			if until, ok := args[2].(time.Time); ok && st.String() == "tripped" {
 				l.trips = append(l.trips, tripRec{l.seq.Add(1), until})
-				l.mu.Unlock()
 			}
+			l.mu.Unlock()
 		}
 		return
 	}
@@ -310,7 +329,15 @@ func TestC05_Stress(t *testing.T) {
 		<-clockDone
 		lg.mu.Lock()
 		trips := append([]tripRec(nil), lg.trips...)
+		states := append([]string(nil), lg.states...)
 		lg.mu.Unlock()
+		prevState := "standby"
+		for i, st := range states {
+			if !map[string]bool{"standby>tripped": true, "tripped>recovering": true, "recovering>standby": true, "recovering>tripped": true}[prevState+">"+st] {
+				t.Fatalf("state change #%d is %s -> %s: concurrent requests drove the breaker outside standby->tripped->recovering->(standby|tripped) (%d workers)", i, prevState, st, workers)
+			}
+			prevState = st
+		}
 		shielded := 0
 		for _, o := range all {
 			for _, tr := range trips {
